@@ -457,6 +457,22 @@ class Gen10:
                 conj.append(m.Not(m.Equals(self.x, self.y)))
             else:
                 conj.append(m.Or(m.Equals(self.x, m.Int(3)), m.Equals(self.y, self.z)))    # not top level
+        if r.random() < 0.35:
+            # operators whose manager constructor folds once a propagated constant arrives: ToReal(c), x / c
+            k = r.random()
+            if k < 0.35:
+                conj.append(m.LE(m.ToReal(self.pick([self.x, self.y])), self.pick([self.ua, self.ub])))
+                conj.append(m.Equals(self.x, m.Int(r.choice([1, 0, -2]))))
+            elif k < 0.7:
+                conj.append(m.LE(m.Div(self.ua, self.ub), self.ua))
+                conj.append(m.Equals(self.ub, m.Real(r.choice([2, 4, -1]))))
+            elif k < 0.85:
+                conj.append(m.LT(m.Plus(m.ToReal(m.Plus(self.x, self.y)), m.Div(self.ub, self.ua)), m.Real(3)))
+                conj.append(m.Equals(self.ua, m.Real(2)))
+                conj.append(m.Equals(self.y, self.x))
+            else:
+                conj.append(m.Equals(m.Div(self.x, self.y), self.z))
+                conj.append(m.Equals(self.y, m.Int(r.choice([2, 3]))))
         if r.random() < 0.15:
             # a binder over a non-defined symbol
             conj.append(m.ForAll([self.qc], m.Or(self.qc, m.LE(self.x, self.y))))
@@ -1114,6 +1130,12 @@ def probes(env):
     out.append(("propagate", m.And(m.Equals(x, m.Int(1)), m.Equals(x, m.Int(2)))))
     out.append(("propagate", m.And(m.Equals(y, x), m.ForAll([x], m.LE(x, y)))))          # capture (F51)
     out.append(("propagate", m.Equals(m.String("a"), m.String("b"))))                     # F50
+    r_, s_ = m.Symbol("u", REAL), m.Symbol("v", REAL)
+    out.append(("propagate", m.And(m.Equals(x, m.Int(1)), m.LE(m.ToReal(x), r_))))         # ToReal(1) folds to 1.0
+    out.append(("propagate", m.And(m.Equals(s_, m.Real(2)), m.LE(m.Div(r_, s_), r_))))     # r / 2.0 becomes r * 1/2
+    # the guard of propagate_equiv is exact: a bound *key* or a constant representative is harmless
+    out.append(("propagate", m.And(m.Equals(x, m.Int(1)), m.ForAll([x], m.LE(x, y)))))
+    out.append(("propagate", m.And(m.Equals(x, y), m.ForAll([y], m.LE(y, m.Symbol("z", INT))))))
     # F52: a constant joins a class led by a symbol; the constant is also the index of an array value
     out.append(("propagate", m.And(m.Equals(m.Select(m.Array(INT, m.Int(0), {m.Int(5): m.Int(1)}), x), m.Int(1)),
                                    m.Equals(y, m.Int(5)), m.Equals(x, y))))
